@@ -41,7 +41,7 @@ var Meta = map[string]PropMeta{
 		Rule:        "one evaluation = one generated scenario (source tree, prior destination state, option subset, source arguments, arrangement A1 pull-daemon/A2 push-daemon/A3 library pull+push/A4 CLI local copy, transport capacities/chunking/bias), run under 1-2 schedules; oracle: both ends return nil, every model-selected regular file equals the source bytes if the update rule says transfer, else is unchanged. Non-trivial = at least one selected file was transferred over an existing, non-empty, different destination file (delta basis in play); distinct = distinct scenario JSON",
 		Assumptions: []string{"reference model of selection/update rule (verif/sim/model) is correct", "A4 (CLI local copy) uses io.Pipe inside the code under test: its interleaving is chosen by the Go runtime, only hang detection is exact there", "file sizes up to 3 MiB quick / 12 MiB thorough"},
 		Real:        realCommon, Stub: stubCommon,
-		Quick:    q(400, 50*time.Second),
+		Quick:    q(3000, 40*time.Second),
 		Thorough: q(20000, 20*time.Minute),
 	},
 	"C19": {
@@ -50,7 +50,7 @@ var Meta = map[string]PropMeta{
 		Rule:        "rule lists of length 0..3 from a pool of 34 rules (allow/deny x all, /0, /8, /24, /32, /128, IPv4-mapped prefixes, nested and disjoint networks, and malformed rules: missing space, unknown action (with 'all', and with a valid network so that only a non-matching address exposes a skipped check), bare address, bad prefix length, double space, trailing space, upper case, bad octet, empty) x addresses from a pool of 26 (IPv4, IPv6, IPv4-mapped IPv6 on and around every prefix boundary). Oracle: '@RSYNCD: OK' and a complete session iff the first rule containing the address says allow or no rule matches; otherwise (also when evaluation reaches a malformed rule) an @ERROR line followed by EOF with no further byte. quick samples lists and 6 addresses per list; thorough enumerates all 1+34+34^2+34^3 = 40495 lists x all 26 addresses. Non-trivial = non-empty rule list",
 		Assumptions: []string{"input/configuration-quantified (pure decision function); the simulated network supplies arbitrary peer addresses, which real sockets cannot", "independent model semantics for IPv4-mapped addresses: an IPv4 prefix contains the corresponding mapped IPv6 address and vice versa (what net.IPNet.Contains does)"},
 		Real:        realCommon, Stub: append([]string{"client: reference daemon client"}, stubCommon...),
-		Quick:     q(600, 50*time.Second),
+		Quick:     q(6000, 35*time.Second),
 		Thorough:  TierCfg{Runs: 41000, Budget: 50 * time.Minute, JobTimeout: 180 * time.Second},
 		EnumTotal: 40495,
 	},
@@ -60,7 +60,7 @@ var Meta = map[string]PropMeta{
 		Rule:        "auth mode: authorized_ssh listener with an authorized_keys file in one of 4 layouts (plain, comments and blank lines, options prefix and comment suffix, empty) listing a random subset of 2-5 generated keys of types ed25519/ecdsa-256/384/521/rsa-2048; every key connects: handshake must succeed iff the key is listed, and an admitted client gets the module listing through 'rsync --server --daemon .'. anon mode: anon_ssh listener with a writable module; 5 (thorough 12) sessions: the daemon invocation (3 spellings), shell/subsystem/pty-req, foreign channel types, and exec command lines from a 34-entry grammar (command-mode server on outside paths with and without --sender/--delete, client-mode local and remote transfers, -e/--rsh with a canary script, RSYNC_RSH via env, daemon flags, --version/--help, other programs, empty line). Oracle: every non-daemon command line ends with a non-zero exit status or a refused request/channel; no canary content on the channel; nothing created, changed, deleted or executed outside the module; no outside content copied into the module; the daemon invocation serves the listing. Non-trivial = every run",
 		Assumptions: []string{"input/configuration-quantified; SSH key exchange uses crypto/rand, so event logs (not verdicts) differ between runs", "built with the repository's nonamespacing tag and GOKRAZY_RSYNC_PRIVDROP=1 so that the daemon does not re-execute itself in a mount namespace; landlock relaxed through restrict.ExtraHook", "only the anonymous listener is held to 'daemon protocol only' (command mode is the documented use of the authorised one)"},
 		Real:        append([]string{"internal/anonssh", "internal/maincmd daemon branch", "internal/rsyncdconfig", "golang.org/x/crypto/ssh (server and client)"}, realCommon...), Stub: append([]string{"non-parking simulated connections (x/crypto/ssh holds a mutex across Write)"}, stubCommon...),
-		Quick:            q(60, 70*time.Second),
+		Quick:            q(300, 60*time.Second),
 		Thorough:         q(4000, 25*time.Minute),
 		ExtraTags:        "nonamespacing",
 		Env:              []string{"GOKRAZY_RSYNC_PRIVDROP=1"},
@@ -72,7 +72,7 @@ var Meta = map[string]PropMeta{
 		Rule:        "sender mode: 1-6 files per session, each a (target, basis, block length, strong length) case: small alphabets {a,b}/{a,b,c} with lengths 0..12 and block lengths 1..8, or large files up to 3 MiB with block lengths 700..131072 (incl. multiples of 8 and tiny legal ones), bases = edited variants incl. weak-checksum-colliding blocks (+1,-2,+1 byte patch keeps the rolling sum), duplicated blocks, remainder block recurring mid-file; real daemon serves from a directory or from a short-reading fs.FS. Oracle: tokens applied to the basis == source bytes, trailer == MD4(seed||source), head echoed; with a truncated strong sum a mismatch is accepted only if weak and truncated strong sums of the referenced block and the target window are equal. receiver mode: real pulling client, destination holds bases, reference sender answers with random scripts (literal runs 1 B..256 KiB+1, block references in any order, repeated, remainder block mid-file); oracle: file written == bytes denoted. thorough additionally enumerates ALL targets x bases over {a,b} of length 1..6 x block lengths 1..4 (63504 cases). Non-trivial = a reply with both block references and literals (sender) / scripts with block references (receiver)",
 		Assumptions: []string{"refproto is the trusted base (go test ./refproto validates it against /usr/bin/rsync --protocol=27 when present)", "file sizes <= 3 MiB"},
 		Real:        realCommon, Stub: append([]string{"peer: reference protocol-27 receiver/sender (verif/sim/refproto)", "sender disk for fs.FS modules: simfs with seeded short reads"}, stubCommon...),
-		Quick:     q(500, 50*time.Second),
+		Quick:     q(4000, 40*time.Second),
 		Thorough:  q(30000, 20*time.Minute),
 		EnumTotal: 63504,
 	},
@@ -82,7 +82,7 @@ var Meta = map[string]PropMeta{
 		Rule:        "wire mode: 1-3 files of the shapes whole-file / mixed delta / pure delta, real sender and real receiver in pull and push (A1, A2, A3 both ways); a fault-free run is decoded to enumerate all token-word, literal and trailer byte positions; then 10 (thorough: 30) single faults per scenario: bit flip at a drawn position of a drawn class (token words: bits 0-10,12,16,20,31), or basis mutation at a drawn step. Oracle after each faulted run: every listed file holds its previous content (or the externally written one) or exactly the sender's content; a session reporting success has updated every file the rule requires. script mode (every 5th run): reference sender answers with the honest token stream perturbed (other valid block index, literal runs swapped/duplicated, token dropped, truncated) but the TRUE whole-file checksum: destination must stay unchanged and the client must fail. Non-trivial = at least one fault run on a session with data replies / a perturbation denoting different bytes",
 		Assumptions: []string{"flips of token-word bits that declare hundreds of megabytes are not generated (resource exhaustion is outside the guarantee)", "index-word and sum-head flips are outside the property's quantifier (token words, literal bytes, trailer)", "wire bytes are identical between the fault-free and the faulted run of one process (same checksum seed inside the bubble)"},
 		Real:        realCommon, Stub: append([]string{"script mode: sending peer is the reference sender"}, stubCommon...),
-		Quick:    q(150, 60*time.Second),
+		Quick:    q(300, 50*time.Second),
 		Thorough: TierCfg{Runs: 5000, Budget: 25 * time.Minute, JobTimeout: 15 * time.Minute},
 	},
 	"C04": {
@@ -91,7 +91,7 @@ var Meta = map[string]PropMeta{
 		Rule:        "one evaluation = one multi-file scenario (new files, replaced files, replaced symlinks, other types in the way; receiver = real client in A1/A3p, real daemon in A2/A3s) run fault-free with the atomicity invariant evaluated at every scheduler step, then re-run once per fault (cut of either direction / freeze of the receiving party at a byte offset drawn per-mille of the direction's volume; 6 faults per scenario quick, 30 thorough). Invariant: every listed path is its complete old content, its complete new content, or absent (absent only if it was absent or the type changes). After a cut: both ends return, connection closed, no non-listed entry may remain. In addition the kernel's inotify history of the destination is recorded for every run: a listed path that is replaced by an entry of the same type must never show a DELETE/MOVED_FROM event (this covers the instants between two system calls that the scheduler cannot stop at). Non-trivial = at least one regular file replaced over different content and > 20 steps",
 		Assumptions: []string{"crash points are quiescent points (receiver parked in Read at byte N); crashes between two syscalls of one goroutine are not sampled", "power-loss durability (un-fsynced data) is not simulated: no storage seam", "freeze + snapshot stands in for SIGKILL of a subprocess (directory contents are what survives a kill)"},
 		Real:        realCommon, Stub: stubCommon,
-		Quick:    q(150, 60*time.Second),
+		Quick:    q(600, 60*time.Second),
 		Thorough: TierCfg{Runs: 6000, Budget: 25 * time.Minute, JobTimeout: 15 * time.Minute},
 	},
 	"C05": {
@@ -100,7 +100,7 @@ var Meta = map[string]PropMeta{
 		Rule:        "2-9 hostile entries per list drawn from 34 name vectors (.. components, absolute names, names through pre-existing symlinks pointing out of the root, names through symlinks sent earlier in the same list (evil -> ../sibling_dir, evil2 -> absolute dir, evil_up -> ..), a/../.. forms, name-prefix siblings) x entry types regular file (basis open, temp file, rename), directory (mkdir, chmod, chtimes), symlink, fifo, socket, char device (mknod), with a random subset of -l -p -t -o -g -D --delete -I -c so that chmod/chtimes/chown/delete are attempted; module side also draws the upload sub-directory from {'', sub/, link_out/, link_up/, ../, ../sibling_dir/, link_abs/, a/../../}. Oracle: every object outside the root (sibling file, sibling directory, name-prefix sibling, absolute-path canary, /etc probe) has identical existence, content, mode, mtime, owner at every 16th scheduler step and at the end; no request carries the block signature of a canary. Any error or skip is acceptable. Non-trivial = every run",
 		Assumptions: []string{"runs as root, so ownership and device creation are really attempted", "a crash of the receiver is recorded as a probe here and judged by C08"},
 		Real:        realCommon, Stub: append([]string{"hostile peer: reference sender"}, stubCommon...),
-		Quick:     q(600, 50*time.Second),
+		Quick:     q(6000, 35*time.Second),
 		Thorough:  q(30000, 20*time.Minute),
 		EnumTotal: 2448, // 34 vectors x 6 types x 6 option sets x 2 sides, enumerated first by the thorough tier
 	},
@@ -110,7 +110,7 @@ var Meta = map[string]PropMeta{
 		Rule:        "module line from {mod, modx, mo, modfs} and one of 45 path forms (module/.., module/../x, module//../, absolute paths, paths through inside symlinks that point to an outside directory/file/absolute directory/.., empty and '.' components, other-module prefixes, NUL and blank components) with a random subset of -r -l -c -t -p -D -o -g; the reference receiver requests every listed regular file. Oracle: the server's raw bytes never contain the content (first 40/last 64 bytes), the MD4 or the name of an object outside the module (names may occur only as link targets of inside symlinks), nor another module's content; every decoded list entry names an existing object inside the module reached without a symlink or '..'. Non-trivial = every run",
 		Assumptions: []string{"canary contents are 2 KB random strings so accidental occurrence is impossible", "link target strings of symlinks inside the module are module data and may name outside paths"},
 		Real:        realCommon, Stub: append([]string{"hostile peer: reference receiver"}, stubCommon...),
-		Quick:    q(500, 50*time.Second),
+		Quick:    q(8000, 35*time.Second),
 		Thorough: q(40000, 20*time.Minute),
 	},
 	"C07": {
@@ -119,7 +119,7 @@ var Meta = map[string]PropMeta{
 		Rule:        "daemon with modules rw (writable), ro (directory, read-only), rofs (fs.FS-backed) and r (writable, name is a prefix of the read-only ones); upload target ro|rofs plus sub-path from {'', '/', '/sub', '/sub/', '/a/b/c/', '/../rw/', '/.', existing entry}; flags: random subset of -t -p -l -D -o -g -c -I -n --delete -a (real client) or raw argument lines without --sender in several spellings (hostile client sending a list and data). Oracle: snapshot of both read-only module trees (content, mode, mtime ns, owner, link target) identical at every 4th scheduler step and at the end; the client ends with an error (@ERROR line, error frame or failed session). Non-trivial = every run (a refusal was observed)",
 		Assumptions: []string{"refproto sender is the hostile peer"},
 		Real:        realCommon, Stub: append([]string{"hostile peer: reference sender"}, stubCommon...),
-		Quick:    q(300, 50*time.Second),
+		Quick:    q(5000, 35*time.Second),
 		Thorough: q(15000, 15*time.Minute),
 	},
 	"C08": {
@@ -128,7 +128,7 @@ var Meta = map[string]PropMeta{
 		Rule:        "daemon target: one Server.Serve(simulated listener) with modules ro/rw/fsm per run, 6 (thorough 14) hostile sessions, each followed by a canonical pull whose data must be correct. Session kinds: pull-mut / push-mut (one field occurrence of greeting, module line, argument line, filter list, file index, checksum-header fields, sums, file-list flags/lengths/names/ids/links, id lists, tokens, literals, trailers, phase markers and (client target) multiplex frame headers mutated by class neg, -1, 0, +1, -1, 2^20-1, truncation after the field, noise, int32 max/min; count-like fields never above 2^20 unless negative), args (57 argument-line vectors incl. --version, --help, --info=help, --debug=help, --daemon -h, -hh, unknown and unimplemented options, wildcard filters, 70 KB option strings, odd module lines), cut-pull / cut-push (connection lost after N client bytes), noise (random bytes at 5 handshake stages). client target (every third run): real pulling/pushing client against a hostile server with mutated version/seed/list/reply/stat fields or noise, or a valid stream packed into multiplex frames of 32 KiB .. 16 MiB-1 (larger than the client's documented limit: must be refused with an error, not a crash). Oracle: worker process alive (no panic, os.Exit, fatal error), no handler or client left blocked after the hostile peer closed, canonical request served with correct bytes, client returns instead of panicking. Non-trivial = at least one canonical session verified / every client run",
 		Assumptions: []string{"stalled peers and declared multi-gigabyte sizes are outside the guarantee (never generated)", "a crash is identified by panic message and top /repo frame, which is also the known-finding key"},
 		Real:        realCommon, Stub: append([]string{"hostile peer: reference peer with single-field mutation"}, stubCommon...),
-		Quick:    q(300, 60*time.Second),
+		Quick:    q(1500, 60*time.Second),
 		Thorough: q(20000, 25*time.Minute),
 	},
 	"C09": {
@@ -137,7 +137,7 @@ var Meta = map[string]PropMeta{
 		Rule:        "recursive sync of a directory's contents with --delete (control: without), destination holds 0..6 extraneous files/directories/symlinks/fifos per run at names sorting before, between and after the listed ones, nested, optionally an --exclude rule naming a destination entry. Oracle: listed entries never removed; without --delete or with the sender's I/O-error flag raised (simulated ReadDir failure) nothing removed; with --delete every extraneous entry not protected by an exclude rule is gone and every protected one is kept. Non-trivial = --delete with >= 2 extraneous entries",
 		Assumptions: []string{"model of exclude-rule protection: an entry is protected iff it or a parent matches an exclude rule (rsync semantics without --delete-excluded)"},
 		Real:        realCommon, Stub: append([]string{"sender disk (I/O error runs): simfs"}, stubCommon...),
-		Quick:    q(400, 50*time.Second),
+		Quick:    q(6000, 35*time.Second),
 		Thorough: q(20000, 15*time.Minute),
 	},
 	"C10": {
@@ -146,7 +146,7 @@ var Meta = map[string]PropMeta{
 		Rule:        "source/destination pairs containing regular files, directories, symlinks, fifos, sockets and devices in every update situation (missing, different, same, wrong type), random option subsets plus -n/--dry-run (a third with --delete and extraneous entries), arrangements A1-A4. Oracle: full snapshot (names, types, content hash, mode, mtime ns, link target, rdev, owner) identical before/after and at every 8th scheduler step; session succeeds; sender stream carries no sum head, token or literal. Non-trivial = at least one file index was requested (echoed)",
 		Assumptions: []string{"A4: no wire tap (io.Pipe inside the code under test), snapshot oracle only"},
 		Real:        realCommon, Stub: stubCommon,
-		Quick:    q(400, 50*time.Second),
+		Quick:    q(6000, 35*time.Second),
 		Thorough: q(20000, 15*time.Minute),
 	},
 	"C11": {
@@ -155,7 +155,7 @@ var Meta = map[string]PropMeta{
 		Rule:        "sync mode: tree of up to 12 entries with permission values drawn from 0000..0777 (a quarter lacking owner write), mtimes over the signed 32-bit range incl. pre-1970 and sub-second parts, symlink targets of arbitrary bytes, devices, fifos, sockets, foreign uids/gids (root workers); options = -r plus a random subset of -p -t -l -D -o -g; arrangements A1/A2/A3 both directions; prior destination with stale/up-to-date files carrying their own permissions. Oracle per created entry: type; with -p mode bits; with -t regular-file mtime (seconds); with -l target; with -D rdev; as root with -o/-g owner/group; without -p an existing destination file keeps its mode. A quarter of the workers run unprivileged so that directories lacking owner write permission are a real obstacle. idmap mode (every 8th run, root): reference sender names remote uid/gid 4242/4343 as nobody|daemon|<unknown>: destination ids must be the local ids of those names, else the numeric ids. Non-trivial = more than one entry checked",
 		Assumptions: []string{"input/configuration-quantified: schedules vary per run but do not decide this property", "directory mtimes and modes of newly created files without -p are unconstrained by the property"},
 		Real:        realCommon, Stub: stubCommon,
-		Quick:           q(400, 50*time.Second),
+		Quick:           q(6000, 35*time.Second),
 		Thorough:        q(20000, 15*time.Minute),
 		NonRootFraction: 0.25,
 	},
@@ -165,7 +165,7 @@ var Meta = map[string]PropMeta{
 		Rule:        "table mode: per run one option combination of {-r} x {-t} x {-c} x {-I} (8 combinations, by run index) and the complete table {missing, same size + same content, other size, same size + other content} x {mtime equal, +1 s, -1 s, sub-second difference only, previous second but less than 1 s away, next second with fraction, far future, far past} plus directory/symlink in the way, names and wire order random; oracle: requested set == model (missing | not regular | size differs | -c: content differs | -I | mtime differs at 1 s granularity). repeat mode (every 4th run): real A1 sync of a random tree twice with -t/-a/-tc: second run must request nothing and move no literal byte; then the size, mtime or content of one source file is changed and exactly the rule-mandated request must follow. Non-trivial = >= 10 decided entries / first run requested files",
 		Assumptions: []string{"refproto sender is the trusted base", "mtimes within the signed 32-bit range"},
 		Real:        realCommon, Stub: append([]string{"table mode: sending peer is the reference sender"}, stubCommon...),
-		Quick:    q(200, 50*time.Second),
+		Quick:    q(2500, 35*time.Second),
 		Thorough: q(10000, 15*time.Minute),
 	},
 	"C13": {
@@ -174,7 +174,7 @@ var Meta = map[string]PropMeta{
 		Rule:        "tree of up to 14 entries (depth <= 3), rules name files and directories in every position plus non-matching names; destination empty. Oracle: destination entry set == model selection (first matching rule decides; excluded directory takes its subtree; later siblings unaffected; include rules keep). 1 in 12 rules is a wildcard rule: then the session must fail with an error or produce rsync's glob selection, never crash, hang or select something else. Non-trivial = rules filtered out at least one entry (or a wildcard rule was rejected)",
 		Assumptions: []string{"model written from the property statement; anchored ('/name'), directory-only ('name/'), path ('dir/name') and '!' rules are outside the generated domain"},
 		Real:        realCommon, Stub: stubCommon,
-		Quick:    q(500, 50*time.Second),
+		Quick:    q(8000, 35*time.Second),
 		Thorough: q(30000, 15*time.Minute),
 	},
 	"C14": {
@@ -183,7 +183,7 @@ var Meta = map[string]PropMeta{
 		Rule:        "random subsets of {-r -l -p -t -g -o -D --devices --specials --no-D --no-l --no-p --no-t --no-g --no-o -c -I -n --delete -a} (+ --exclude) on a tree that always contains a symlink, fifo, socket, char device, nested and plain files; prior destination with up-to-date, stale and extraneous entries. Oracle: every arrangement succeeds (no protocol error, deadlock, crash); destination entry set == model (created types per option, --delete, -n, exclude); destinations of A2..A4 equal A1's on content, link target, rdev, perms (+ file mtime with -t, owner/group with -o/-g). Non-trivial = >= 2 arrangements compared",
 		Assumptions: []string{"runs as root so devices can be created", "sampled option subsets (2^20 x arrangements is not enumerated)"},
 		Real:        realCommon, Stub: stubCommon,
-		Quick:    q(150, 60*time.Second),
+		Quick:    q(2000, 45*time.Second),
 		Thorough: q(8000, 20*time.Minute),
 	},
 	"C15": {
@@ -192,7 +192,7 @@ var Meta = map[string]PropMeta{
 		Rule:        "decode modes: random tree (names with arbitrary bytes, all entry types, foreign uids/gids, up to 150 entries) under a random subset of {-o -g -D -l -c -t -p}; the reference receiver decodes handshake, list, id lists and I/O-error word strictly, compares every field with lstat of the source, then requests every regular file by its own sorted index and must receive that file's bytes. encode mode: 1-30 (sometimes 200-1000; thorough 2000-10000) entries with names 1..4094 bytes, shared prefixes, sizes 0, 2^31-1, 2^31, 2^40, 2^62, every type and permission value, per-opportunity random choice of SAME_NAME/SAME_TIME/SAME_MODE/SAME_UID/SAME_GID/SAME_RDEV, 1- and 4-byte name lengths, forced 64-bit lengths, daemon or remote-shell handshake; the real receiver runs in list-only mode and its listing must equal the encoded entries in sorted order. Non-trivial = more than 2 entries",
 		Assumptions: []string{"refproto is the trusted base", "encode mode observes the receiver through its list-only output (mode string, size, mtime, name); uid/gid/rdev/link decoding is observed indirectly: a mis-decoded optional field desynchronises the following entries"},
 		Real:        realCommon, Stub: append([]string{"peer: reference receiver / sender"}, stubCommon...),
-		Quick:    q(300, 50*time.Second),
+		Quick:    q(4000, 40*time.Second),
 		Thorough: q(10000, 20*time.Minute),
 	},
 	"C16": {
@@ -201,7 +201,7 @@ var Meta = map[string]PropMeta{
 		Rule:        "1-3 high-entropy files (2 KB..3 MiB quick, ..24 MiB thorough), the sender's version = receiver's copy + 0..4 edits (insert/delete/replace of 1..20000 bytes at unaligned offsets, prepend, append, block swap). Oracle: identical file => 0 literal bytes; otherwise literal bytes <= sum(new bytes of edit + 3B per continuity break) + B with B the block length seen in the echoed checksum header; reconstruction exact. Non-trivial = edited file longer than 4 blocks; distinct = distinct scenario",
 		Assumptions: []string{"bound constant 3 is deliberately loose (an edit spoils the blocks it overlaps plus neighbours)", "refproto parser is the trusted base"},
 		Real:        realCommon, Stub: append([]string{"mode ref: receiving peer is the reference receiver"}, stubCommon...),
-		Quick:    q(200, 50*time.Second),
+		Quick:    q(1500, 45*time.Second),
 		Thorough: q(8000, 20*time.Minute),
 	},
 	"C17": {
@@ -210,7 +210,7 @@ var Meta = map[string]PropMeta{
 		Rule:        "sessions A1/A3 pull and A2/A3 push (server output = data or requests) on random trees with delta bases; re-framing: maximum data-frame size from {1,2,3,5,7,64,1000,4096,32768,65536,262144}, cut style uniform / always-max / always-1 / ending inside 4-byte words, info-frame runs of up to 1/3/120/500 before data frames with probability 0/5/30/100 %, empty data frames, in a fifth of the runs an error frame with a known message after a drawn number of data bytes. Oracle: same destination tree as the un-reframed run and success; with an error frame the client fails and its error carries the server's message. Every frame of the real server in the baseline run is checked: known tag, length <= 256 KiB, concatenated payloads parse as a valid protocol-27 sender stream. Non-trivial = more than 10 re-cut data frames or an error frame surfaced",
 		Assumptions: []string{"frame sizes above 256 KiB are not generated: the client documents that limit and no known rsync sends them"},
 		Real:        realCommon, Stub: append([]string{"middlebox (harness) between server and client"}, stubCommon...),
-		Quick:    q(300, 50*time.Second),
+		Quick:    q(1500, 45*time.Second),
 		Thorough: q(10000, 20*time.Minute),
 	},
 	"C18": {
@@ -219,7 +219,7 @@ var Meta = map[string]PropMeta{
 		Rule:        "term mode: one session A1/A2/A3/A4 with capacities from {0,1,7,64,64Ki,unbounded}^2 (daemon arrangements >= 12 bytes: both ends write their greeting first), chunking style, scheduling bias, optional stall fault, tree mixing tiny files / multi-MiB literals / multi-MiB bases; violation = deadlock or step-budget exhaustion, or a session that ends with an error under the drawn transport although it succeeds on the canonical one (schedule independence); in a quarter of the runs one literal data byte is damaged in flight (located by decoding a fault-free run) and the session must still complete with an error (error-path termination). multi mode: 2-32 concurrent pulls/uploads (distinct and identical targets) via Server.Serve(simulated listener); every session must succeed and its result must equal the same session run alone; a quarter of the workers run the free-running variant in a -race build, and a third of the multi runs on ordinary workers are free-running too (40-200 directories, 4-11 identical uploads to one fresh target) so that handlers really overlap between system calls. Non-trivial = more than 50 scheduler steps (term) or >= 2 sessions on a non-empty tree (multi)",
 		Assumptions: []string{"race detection is happens-before analysis on free-running in-memory transports (not schedule search): the deterministic scheduler would add happens-before edges", "A4 interleaving is chosen by the Go runtime; hang detection there is exact via synctest quiescence", "capacities below 12 bytes are not generated for daemon arrangements (greeting deadlock is protocol-inherent)"},
 		Real:        realCommon, Stub: stubCommon,
-		Quick:        q(300, 60*time.Second),
+		Quick:        q(1500, 60*time.Second),
 		Thorough:     q(20000, 25*time.Minute),
 		RaceFraction: 0.25,
 	},
